@@ -20,6 +20,12 @@ CHECKS = {
  "C08": ("exploration", "complete election/NI decision table of Flush executed on generated RIBs + contents workload; reference model, hooked refcount invariant and model-judged aftermath (ops + delete sweep)",
          "All 300 cells of {learnt id} x {election field incl. 128-bit neighbours} x {network-instance field} are executed against servers with generated contents: status code, exact emptying / no change, election state untouched, consistent aftermath. Authorised flushes of every target selection run over generated RIBs with shared, missing and cyclic backup groups and cross-NI references.",
          "trusted: model; expected status codes taken from gRIBI spec 4.3 (detail reasons not asserted)", "4 C08"),
+ "C12": ("exploration", "hostile-input workload (structured protobuf mutation + named invalid classes) in sacrificial child processes with a state-unchanged oracle (contents, hooked pending set and refcounts), crash detection by process exit and hang detection by watchdog + quiescent goroutine-dump classifier",
+         "Child processes each send hundreds of mutated or deliberately invalid AFT operations (through the RIB API and through a Modify stream) and Get/Flush request variants to a populated server that also carries a bystander session; each input is logged before it is sent so that a crash names its input. Invalid classes must be FAILED (or a clean RPC error) with contents, held operations and reference counters unchanged; inputs of unknown validity must not crash or hang and must leave state unchanged when rejected.",
+         "trusted: the class tags of the generator; only wire-representable inputs are sent; the process boundary is the crash detector", "4 C12"),
+ "C15": ("exploration", "round-trip oracle: reconciler operations applied one by one to a live target RIB with reference checking on, then canonical contents equality",
+         "Generated pairs of reference-closed RIBs (independent, equal, intended-plus-overlay; target network instances a superset) are reconciled; the emitted operations are applied in the documented order to the live target, each must be acknowledged, and the target's contents must equal the intended contents in every network instance; ids must be base+1..base+n and equal RIBs must yield no operations. 1 in 10 pairs observe the target through a real Get RPC.",
+         "trusted: canonicaliser; generator of closed RIBs", "4 C15"),
  "C16": ("exploration", "folding monitor over post-change notifications compared with the reference model after every step; snapshot re-hash for resolved-entry notifications; 4 hook/NI creation orders",
          "A consumer registered through rib.SetPostChangeHook / server.WithPostChangeRIBHook folds ADD/DELETE notifications; after every step of generated histories (Modify-like ops, held-op resolution, flushes) the fold must equal the model in every NI, in four configurations of hook registration vs NI creation. Resolved-entry snapshots are hashed on receipt and re-hashed at the end.",
          "trusted: model + canonicaliser; resolved-entry callbacks are asynchronous: a run whose callbacks do not all arrive is inconclusive", "4 C16"),
